@@ -9,7 +9,8 @@ few ulp because numpy does not promise the rounding of its own mean."""
 import warnings
 import numpy as np
 from .common import import_repo, length_vectors
-from .raggedutil import (ALL_DTYPES, dtclass, empty_class, cells, flat, mk, num_eq, seq_eq, short, float_rtol)
+from .raggedutil import (ALL_DTYPES, dtclass, cells, flat, mk, num_eq, short, float_rtol, Unsupported, nonempty_variant,
+                         rows_class, vals_class, refine)
 
 PROPERTY = "C05"
 NAMED = ["sum", "prod", "any", "all", "max", "min", "mean", "argmax", "argmin"]
@@ -106,8 +107,25 @@ def nontrivial(case):
     return 0 in case["lengths"] or len(case["lengths"]) == 0 or case["form"] not in ("method", "reduce")
 
 
-def _sig(what, case):
-    return f"{what}:{case['op']}:{empty_class(case['lengths'])}:{case['form']}:{dtclass(case['dtype'])}"
+def _what(what, case):
+    return f"{what}:{'ufunc-reduce' if case['form'].startswith('reduce') else 'named'}"
+
+
+def _plain(form):
+    return "reduce" if form.startswith("reduce") else "method"
+
+
+def _other_ops(case):
+    return ["add", "multiply", "logical_or", "bitwise_xor"] if case["form"].startswith("reduce") else ["sum", "any", "max", "mean"]
+
+
+AXES = [
+    ("op", "op", _other_ops, lambda op: op),
+    ("form", "form", lambda case: [_plain(case["form"])], lambda f: None if f in ("method", "reduce") else f),
+    ("rows", "lengths", lambda case: [nonempty_variant(case["lengths"])], rows_class),
+    ("dtype", "dtype", ["int64", "float64", "bool", "uint8"], dtclass),
+    ("vals", "vals", ["distinct"], vals_class),
+]
 
 
 def _call(ra, op, form):
@@ -143,11 +161,30 @@ def check(case):
     import_repo()
     with warnings.catch_warnings(), np.errstate(all="ignore"):
         warnings.simplefilter("ignore")
-        return _check(case)
+        try:
+            v = _check(case)
+            if v is not None and case["form"] not in ("method", "reduce"):
+                # a failure of the plain row reduction on the same input is reported as such, not as a failure of the form
+                plain = dict(case, form=_plain(case["form"]))
+                try:
+                    vp = _check(plain)
+                except Unsupported:
+                    vp = None
+                if vp is not None:
+                    case, v = plain, {"msg": f"[seen through {_written(case['op'], case['form'])}] " + vp["msg"], "what": vp["what"]}
+        except Unsupported:
+            return None
+        return None if v is None else refine(case, v, _check, AXES)
 
 
 def _check(case):
+    """-> None | {"msg", "what"}; raises Unsupported when numpy refuses the input or nothing is specified for it"""
     lengths, dt, op, form = case["lengths"], case["dtype"], case["op"], case["form"]
+    if form.startswith("reduce"):
+        if op not in UFUNCS or not _supported(op, dt):
+            raise Unsupported()
+    elif op not in NAMED or not _applicable(op, form, lengths):
+        raise Unsupported()
     rows = cells(lengths, dt, case["vals"], offset=case.get("offset", 0))
     n = len(rows)
     ra = mk(rows, dt)
@@ -160,19 +197,19 @@ def _check(case):
     if form.endswith("none"):
         data = np.array(flat(rows), dtype=dt)
         if op in NEEDS_NONEMPTY and data.size == 0:
-            return None
+            raise Unsupported()
         exp = np.asarray(npf(data)).item()
         try:
             got = _call(ra, op, form)
         except Exception as e:
             return {"msg": f"{desc}: expected {exp!r} (numpy over all elements), raised {type(e).__name__}: {e}",
-                    "sig": _sig(f"raised:{type(e).__name__}", case)}
+                    "what": _what(f"raised:{type(e).__name__}", case)}
         g = np.asarray(got)
         if g.shape != () and g.size != 1:
-            return {"msg": f"{desc}: expected the single number {exp!r}, got {short(got)}", "sig": _sig("wrong-shape", case)}
+            return {"msg": f"{desc}: expected the single number {exp!r}, got {short(got)}", "what": _what("wrong-shape", case)}
         if not num_eq(g.reshape(()).item(), exp, rtol):
             return {"msg": f"{desc}: expected {exp!r} (numpy over all elements), got {g.reshape(()).item()!r}",
-                    "sig": _sig("wrong", case)}
+                    "what": _what("wrong", case)}
         return None
     checked = [i for i in range(n) if lengths[i] > 0 or op not in NEEDS_NONEMPTY]
     exp = {i: np.asarray(npf(np.array(rows[i], dtype=dt))).item() for i in checked}
@@ -181,19 +218,19 @@ def _check(case):
         got = _call(ra, op, form)
     except Exception as e:
         return {"msg": f"{desc}: expected per row {exp_show}, raised {type(e).__name__}: {e}",
-                "sig": _sig(f"raised:{type(e).__name__}", case)}
+                "what": _what(f"raised:{type(e).__name__}", case)}
     try:
         g = np.asarray(got)
     except Exception as e:
-        return {"msg": f"{desc}: result {short(got)} is not array-like ({e})", "sig": _sig("wrong-shape", case)}
+        return {"msg": f"{desc}: result {short(got)} is not array-like ({e})", "what": _what("wrong-shape", case)}
     want_shape = (n, 1) if form.endswith("keepdims") else (n,)
     if g.shape != want_shape or g.dtype == object:
         return {"msg": f"{desc}: expected shape {want_shape} with per-row values {exp_show}, got shape {g.shape}: {short(got)}",
-                "sig": _sig("wrong-shape", case)}
+                "what": _what("wrong-shape", case)}
     gl = g.reshape(n).tolist()
     bad = [i for i in checked if not num_eq(gl[i], exp[i], rtol)]
     if bad:
         i = bad[0]
         return {"msg": f"{desc}: row {i} = {rows[i]}: numpy gives {exp[i]!r}, got {gl[i]!r} (all: expected {exp_show}, got {gl})",
-                "sig": _sig("wrong-empty-row" if lengths[i] == 0 else "wrong", case)}
+                "what": _what("wrong-empty-row" if lengths[i] == 0 else "wrong", case)}
     return None
